@@ -5,6 +5,10 @@
 //!  A. configuration layering: every list of <= 3 (thorough: additionally every list of 4 over a reduced
 //!     alphabet) YAML documents from a 40-document alphabet (5 `path`s x 8 bodies) x 4 file paths, observed
 //!     through `config::load_from_yaml` + `ConfigSet::select`.
+//!  A2. path relation: every list of 1-2 (thorough 1-3) documents from 9 `path`s x 3 bodies x 4 file paths as given on the
+//!     command line (bare relative, relative with directory, absolute, `./`), the paths chosen by their RELATION to the
+//!     file path: equal to it, proper suffix / prefix / infix, longer than it, differing in case or by a trailing
+//!     slash, empty (left open). A path that IS the whole file path occurs in it.
 //!  B. rule folding: every rule list of length <= 3 (thorough <= 4) from a 13-rule alphabet x 20 records through
 //!     the CSV importer, from a 16-rule alphabet (the same 13 + 3 with capturing `category` fields) x 16 records
 //!     through the Viseca importer, and from a 15-rule camt alphabet x 10 records through the ISO Camt053 importer.
@@ -18,7 +22,8 @@
 //!     (`load_from_yaml` -> `select` -> `import::import` -> `Txn::to_double_entry` -> `DisplayContext::as_display`,
 //!     i.e. the body of `ImportCmd::run` without the file system).
 //!  C. end to end: every ordered pair of rules split over two layered documents (`bank/`, `bank/acct`), both
-//!     document orders, x 7 records, through `okane::cmd::ImportCmd::run` on real files.
+//!     document orders, x 7 records, through `okane::cmd::ImportCmd::run` on real files; plus every rule x 7 records with
+//!     a second document whose `path` is exactly the source path given to ImportCmd.
 //!
 //! The reference is NON-DETERMINISTIC where the statement is silent: it returns the SET of acceptable
 //! results (tie order of equal-length paths; whole-override vs. per-key merge of `format`; which of several
@@ -48,6 +53,7 @@ pub const DEF: CheckDef = CheckDef {
         "case-insensitive matching is taken from the property's anchored mechanism (extract.rs regex_matcher); the statement and doc/import.ja.md do not mention it (constant CASE_FOLD_IS_MUST)",
         "alphabets avoid empty / non-participating capture groups and a rule with both `payee:` and a payee capture; AND elements with several capturing fields, or with a `payee` field next to a payee-capturing field, ARE included (Viseca / Camt053; okane applies the fields of an element in the fixed order of RewriteField since commit f3b005d) and are judged with a set-valued reference: an element fails iff some field fails under every reading, a failed element contributes no captures, and where two readings of a MATCHING element differ both are admitted (DON'T-CARE)",
         "the CSV alphabet has no capture group in `category` (the CSV importer deliberately discards captures of category / secondary_commodity; not judged)",
+        "`the file's path` is the path as given to select / ImportCmd (no canonicalisation); a document `path` occurs in it iff it is a substring, equality included, case-sensitive (doc: substring comparison); an empty `path` is left open",
         "camt053: the payee printed when no rule set one is not judged; for records carrying an AcctSvcrRef the printed code is judged (MUST be the capture) whenever a matching rule captures a code, and not judged (the reference is the importer's default, outside the statement) when none does",
     ],
     shards: 64,
@@ -214,8 +220,16 @@ fn rule_cfg(r: &RuleDef) -> config::RewriteRule {
 // Family A — configuration layering
 // =============================================================================================
 
-const A_PATHS: [&str; 5] = ["x", "card", "2024", "bank/", "bank/card"];
+/// Indices 0..A_MAIN_PATHS: the main layering alphabet. The rest: family A2, the RELATION between a document's `path` and the
+/// given file path (see A2_FILES): equal to it, proper suffix / prefix / infix, longer than it, differing in case or by a
+/// trailing slash, empty.
+const A_PATHS: [&str; 14] = ["x", "card", "2024", "bank/", "bank/card", "bank.csv", "data/bank.csv", "bank", ".csv", "ank.c", "Bank.csv", "bank.csv/", "data/", ""];
+const A_MAIN_PATHS: usize = 5;
 const A_FILES: [&str; 4] = ["/data/bank/card/2024.csv", "/data/bank/2024.csv", "/data/card.csv", "/data/other.csv"];
+/// File paths as given on the command line: bare relative, relative with directory, absolute, `./`-relative. The statement's
+/// "the file's path" is taken to be the path AS GIVEN (doc: part of the input file's path); `select` receives it verbatim.
+const A2_FILES: [&str; 4] = ["bank.csv", "data/bank.csv", "/abs/data/bank.csv", "./bank.csv"];
+const A2_BODIES: [usize; 3] = [1, 3, 6];
 
 #[derive(Clone, Copy, PartialEq, Eq, PartialOrd, Ord, Debug)]
 enum Commodity {
@@ -270,7 +284,7 @@ struct Doc {
 
 fn doc_yaml(d: Doc) -> String {
     let b = &A_BODIES[d.body];
-    let mut s = format!("path: {}\n", A_PATHS[d.path]);
+    let mut s = format!("path: \"{}\"\n", A_PATHS[d.path]);
     if let Some(v) = b.encoding {
         s.push_str(&format!("encoding: {}\n", v));
     }
@@ -375,8 +389,10 @@ struct SelectRef {
     format_ambiguous: bool,
 }
 
-fn select_ref(docs: &[Doc], file: &str) -> SelectRef {
-    let matching: Vec<Doc> = docs.iter().copied().filter(|d| file.contains(A_PATHS[d.path])).collect();
+/// `empty_matches`: whether a document with an EMPTY `path` counts as occurring in every file path (degenerate; left open).
+fn select_ref(docs: &[Doc], file: &str, empty_matches: bool) -> SelectRef {
+    // "whose `path` occurs in the file's path": substring, equality included, case-sensitive (doc: substring comparison)
+    let matching: Vec<Doc> = docs.iter().copied().filter(|d| file.contains(A_PATHS[d.path]) && (empty_matches || !A_PATHS[d.path].is_empty())).collect();
     let mut accept = BTreeSet::new();
     let mut whole = BTreeSet::new();
     if !matching.is_empty() {
@@ -447,19 +463,28 @@ fn attr_of(diff: &str) -> &str {
     diff.split(':').next().unwrap_or("?")
 }
 
-fn judge_select(docs: &[Doc], file: &str) -> Outcome {
+fn judge_select(fam: &str, docs: &[Doc], file: &str) -> Outcome {
     let yaml = docs_yaml(docs);
     let set = match config::load_from_yaml(yaml.as_bytes()) {
         Ok(s) => s,
         Err(e) => panic!("harness bug: generated configuration does not load: {}\n{}", e, yaml),
     };
-    let r = select_ref(docs, file);
+    let r = select_ref(docs, file, true);
     let got = set.select(Path::new(file));
+    if docs.iter().any(|d| A_PATHS[d.path].is_empty()) {
+        let r2 = select_ref(docs, file, false);
+        if r2.matching != r.matching {
+            // executed (a panic is still a violation), not judged
+            return Outcome::dont_care(format!("{}/empty-path-left-open", fam));
+        }
+    }
+    // a document whose path IS the whole given path takes part like any other
+    let eq = if r.matching.iter().any(|d| A_PATHS[d.path] == file) { "/path-equals-file" } else { "" };
     let n = r.matching.len();
     if n == 0 {
         return match got {
-            Ok(None) => Outcome::pass("A/match0/none"),
-            Err(_) => Outcome::pass("A/match0/error"),
+            Ok(None) => Outcome::pass(format!("{}/match0/none", fam)),
+            Err(_) => Outcome::pass(format!("{}/match0/error", fam)),
             Ok(Some(e)) => Outcome::violation("select/no-document-matches-but-selected", format!("no document's path occurs in {} but an entry (path {:?}) was selected", file, e.path)),
         };
     }
@@ -468,15 +493,15 @@ fn judge_select(docs: &[Doc], file: &str) -> Outcome {
     if !complete(any) {
         // doc/import.ja.md: encoding, account, account_type, commodity are required attributes
         return match got {
-            Err(_) => Outcome::pass(format!("A/match{}/incomplete-rejected", nclass)),
-            Ok(None) => Outcome::violation("select/matching-documents-but-none", format!("{} document(s) match {} but select returned None", n, file)),
-            Ok(Some(_)) => Outcome::violation("select/incomplete-accepted", format!("merged configuration for {} lacks a required attribute but was accepted", file)),
+            Err(_) => Outcome::pass(format!("{}/match{}/incomplete-rejected{}", fam, nclass, eq)),
+            Ok(None) => Outcome::violation(format!("select/matching-documents-but-none{}", eq), format!("{} document(s) match {} but select returned None", n, file)),
+            Ok(Some(_)) => Outcome::violation(format!("select/incomplete-accepted{}", eq), format!("merged configuration for {} lacks a required attribute but was accepted", file)),
         };
     }
     let e = match got {
         Ok(Some(e)) => e,
-        Ok(None) => return Outcome::violation("select/matching-documents-but-none", format!("{} document(s) match {} but select returned None", n, file)),
-        Err(err) => return Outcome::violation("select/complete-rejected", format!("merged configuration for {} is complete but select failed: {}", file, err)),
+        Ok(None) => return Outcome::violation(format!("select/matching-documents-but-none{}", eq), format!("{} document(s) match {} but select returned None", n, file)),
+        Err(err) => return Outcome::violation(format!("select/complete-rejected{}", eq), format!("merged configuration for {} is complete but select failed: {}", file, err)),
     };
     let mut first_diff: Option<String> = None;
     let mut hit = false;
@@ -496,7 +521,7 @@ fn judge_select(docs: &[Doc], file: &str) -> Outcome {
     if !hit {
         let d = first_diff.unwrap_or_default();
         let shape = if r.tie || r.format_ambiguous { "not-among-admitted-results" } else { "differs" };
-        return Outcome::violation(format!("select/merge-{}/{}", shape, attr_of(&d)), format!("file {}: matching documents {:?}; {}", file, r.matching.iter().map(|d| format!("{}@{}", A_BODIES[d.body].name, A_PATHS[d.path])).collect::<Vec<_>>(), d));
+        return Outcome::violation(format!("select/merge-{}/{}{}", shape, attr_of(&d), eq), format!("file {}: matching documents {:?}; {}", file, r.matching.iter().map(|d| format!("{}@{}", A_BODIES[d.body].name, A_PATHS[d.path])).collect::<Vec<_>>(), d));
     }
     // shape of the case for the class histogram
     let overrides = {
@@ -512,11 +537,11 @@ fn judge_select(docs: &[Doc], file: &str) -> Outcome {
     let rule_docs = r.matching.iter().filter(|d| !A_BODIES[d.body].rules.is_empty()).count();
     let shape = format!("{}{}", if overrides > 0 { "override" } else { "disjoint" }, if rule_docs >= 2 { "+concat" } else { "" });
     if r.accept.len() == 1 {
-        Outcome::pass(format!("A/match{}/{}", nclass, shape))
+        Outcome::pass(format!("{}/match{}/{}{}", fam, nclass, shape, eq))
     } else if r.tie {
-        Outcome::dont_care(format!("A/match{}/equal-length-tie", nclass))
+        Outcome::dont_care(format!("{}/match{}/equal-length-tie", fam, nclass))
     } else {
-        Outcome::dont_care(format!("A/match{}/format-whole-vs-per-key", nclass))
+        Outcome::dont_care(format!("{}/match{}/format-whole-vs-per-key", fam, nclass))
     }
 }
 
@@ -1358,6 +1383,35 @@ fn e2e_case(ctx: &mut Ctx, dir: &Path, x: &'static RuleDef, y: &'static RuleDef,
     );
 }
 
+/// A document whose `path` is exactly the source path given to `ImportCmd` takes part in the merge like any other.
+fn e2e_equal_path_case(ctx: &mut Ctx, dir: &Path, x: &'static RuleDef, rec: &Rec) {
+    let srcp = dir.join("bank").join("acct").join("in.csv");
+    let base = format!("path: bank/\nencoding: UTF-8\naccount: Assets:Overridden\naccount_type: asset\ncommodity: JPY\nformat:\n  date: \"%Y/%m/%d\"\n  fields:\n    date: 1\n    payee: 2\n    category: 3\n    amount: 4\n");
+    let exact = format!("path: \"{}\"\naccount: {}\n{}", srcp.display(), SRC_ACCOUNT, rewrite_yaml(&[x]));
+    let yaml = format!("{}---\n{}", base, exact);
+    let src = source_text(Veh::Csv, rec);
+    ctx.case(
+        || format!("[C2 ImportCmd, path = the whole source path] config.yml:\n{}{}:\n{}reference admits: {}", yaml, srcp.display(), src, admitted(&[x], rec)),
+        || {
+            let cfg = dir.join("config-equal.yml");
+            std::fs::create_dir_all(srcp.parent().unwrap()).expect("scratch");
+            std::fs::write(&cfg, &yaml).expect("scratch");
+            std::fs::write(&srcp, &src).expect("scratch");
+            let mut buf: Vec<u8> = Vec::new();
+            let cmd = okane::cmd::ImportCmd { config: cfg, source: srcp.clone() };
+            if let Err(e) = cmd.run(&mut buf) {
+                return Outcome::violation("e2e-path-equals-file/import-failed", format!("{}", e));
+            }
+            let text = String::from_utf8_lossy(&buf).to_string();
+            let printed = match parse_printed(&text) {
+                Ok(p) => p,
+                Err(e) => return Outcome::violation("e2e-path-equals-file/unreadable-output", e),
+            };
+            judge_fold("e2e-path-equals-file", Veh::Csv, &[x], rec, &printed, SRC_ACCOUNT).outcome
+        },
+    );
+}
+
 // =============================================================================================
 
 fn run(ctx: &mut Ctx) {
@@ -1370,7 +1424,7 @@ fn run(ctx: &mut Ctx) {
     check_alphabet(&camt_rules, false);
 
     // ---------------- family A ----------------
-    let all_docs: Vec<Doc> = (0..A_PATHS.len()).flat_map(|p| (0..A_BODIES.len()).map(move |b| Doc { path: p, body: b })).collect();
+    let all_docs: Vec<Doc> = (0..A_MAIN_PATHS).flat_map(|p| (0..A_BODIES.len()).map(move |b| Doc { path: p, body: b })).collect();
     let mut a_cases = 0u64;
     // an empty configuration file does not load at all (serde_yaml yields one null document), so lists start at 1
     for_each_seq(all_docs.len(), 1, 3, &mut |idx| {
@@ -1381,7 +1435,7 @@ fn run(ctx: &mut Ctx) {
                 continue;
             }
             let docs: Vec<Doc> = idx.iter().map(|&i| all_docs[i]).collect();
-            ctx.case(|| format!("[A] select({})\n{}", file, docs_yaml(&docs)), || judge_select(&docs, file));
+            ctx.case(|| format!("[A] select({})\n{}", file, docs_yaml(&docs)), || judge_select("A", &docs, file));
         }
     });
     if ctx.tier.pick(false, true) {
@@ -1396,12 +1450,30 @@ fn run(ctx: &mut Ctx) {
                     continue;
                 }
                 let docs: Vec<Doc> = idx.iter().map(|&i| red[i]).collect();
-                ctx.case(|| format!("[A] select({})\n{}", file, docs_yaml(&docs)), || judge_select(&docs, file));
+                ctx.case(|| format!("[A] select({})\n{}", file, docs_yaml(&docs)), || judge_select("A", &docs, file));
             }
         }
     }
     ctx.fact("A_document_alphabet", all_docs.len() as u64);
     ctx.fact("A_cases", a_cases);
+
+    // ---------------- family A2: relation between a document's path and the given file path ----------------
+    let rel_docs: Vec<Doc> = (A_MAIN_PATHS..A_PATHS.len()).flat_map(|p| A2_BODIES.iter().map(move |&b| Doc { path: p, body: b })).collect();
+    let a2_maxlen = ctx.tier.pick(2usize, 3usize);
+    let mut a2_cases = 0u64;
+    for_each_seq(rel_docs.len(), 1, a2_maxlen, &mut |idx| {
+        for file in A2_FILES {
+            a2_cases += 1;
+            if !ctx.next_is_mine() {
+                ctx.skip_cases(1);
+                continue;
+            }
+            let docs: Vec<Doc> = idx.iter().map(|&i| rel_docs[i]).collect();
+            ctx.case(|| format!("[A2] select({})\n{}", file, docs_yaml(&docs)), || judge_select("A2", &docs, file));
+        }
+    });
+    ctx.fact("A2_document_alphabet", rel_docs.len() as u64);
+    ctx.fact("A2_cases", a2_cases);
 
     // ---------------- family B ----------------
     let maxlen = ctx.tier.pick(3usize, 4usize);
@@ -1460,6 +1532,17 @@ fn run(ctx: &mut Ctx) {
                     e2e_case(ctx, &d, x, y, long_first, rec);
                 }
             }
+        }
+    }
+    for x in PC_RULES.iter() {
+        for rec in &e2e_recs {
+            c_cases += 1;
+            if !ctx.next_is_mine() {
+                ctx.skip_cases(1);
+                continue;
+            }
+            let d = dir.get_or_insert_with(|| crate::oka::scratch_dir("c17")).clone();
+            e2e_equal_path_case(ctx, &d, x, rec);
         }
     }
     ctx.fact("C_cases", c_cases);
